@@ -124,10 +124,46 @@ def _run(facts, rep, tier):
     gm = [(bi, t) for bi, t in reg.proc.calls() if (callee_name(t) or "").endswith("get_message") and bi in reg.blocks]
     e = expr(reg.du, gm[0][1]["args"][0])
     chain = [x[1].split("::")[-1] for x in walk(e) if x[0] == "call"]
-    # (the chain may end in the constructor of a read buffer: its content comes from the reader, not from `new`)
-    while chain and chain[-1] in ("new", "with_capacity"):
-        chain = chain[:-1]
-    bad = [c for c in chain if c not in DECORATION_ONLY]
+    HEX = set(b"0123456789abcdefABCDEF")
+
+    def non_hex_pattern(pe):
+        """a constant pattern (byte / char / str / array of them) that contains no hex digit"""
+        consts = [x for x in walk(pe) if x[0] == "const"]
+        if not consts or any(x[0] in ("arg", "capture", "multi") for x in walk(pe)):
+            return False
+        for c in consts:
+            v = c[1]
+            if isinstance(v, bool) or not isinstance(v, (int, str)):
+                return False
+            if isinstance(v, int) and v in HEX:
+                return False
+            if isinstance(v, str) and any(ord(ch) in HEX for ch in v):
+                return False
+        return True
+
+    bad = []
+
+    def check(x):
+        if not isinstance(x, tuple) or not x:
+            return
+        if x[0] == "call":
+            nm = x[1].split("::")[-1]
+            if nm in ("strip_suffix", "strip_prefix") and len(x[2]) == 2:
+                if not non_hex_pattern(x[2][1]):
+                    bad.append(nm)          # stripping something that may contain digits changes the digit projection
+                check(x[2][0])
+                return
+            if nm in ("new", "with_capacity"):
+                return                      # the constructor of a read buffer: its content comes from the reader
+            if nm not in DECORATION_ONLY and nm not in ("unwrap_or", "unwrap", "expect", "unwrap_or_else"):
+                bad.append(nm)
+            for a in x[2]:
+                check(a)
+            return
+        for y in x[1:]:
+            if isinstance(y, tuple):
+                check(y)
+    check(e)
     rep.oblige(not bad, ("line-chain",))
     rep.sample({"rule": "R02.1", "line_reaches_gate_through": chain})
     if bad:
